@@ -200,6 +200,25 @@ def work(chunk, st):
         check(prod, version, banner, kind, st)
 
 
+def work_client(chunk, st):
+    """client audits: the single-report consistency rules apply unchanged"""
+    for (prod, version, banner), kind in chunk:
+        l = peer_lists(kind)
+        cli = P.Client(kex=l['kex'], key=l['key'], enc=l['enc'], mac=l['mac'], banner=banner)
+        res = H.client_audit(cli, opts=['-n', '-j'])
+        st.execution(res.world, outcome=('client', kind, res.status), root=('client', banner, kind), nontrivial=('client', banner, kind))
+        if res.status not in (0, 2, 3):
+            st.violation('client:audit-failed', {'banner': banner.decode(), 'peer': kind, 'status': res.status, 'stdout': res.stdout[-200:]})
+            continue
+        doc = json.loads(res.stdout)
+        for what, cat, name in consistency_problems(doc):
+            if what == 'rated-algorithm-not-recommended-for-removal':
+                continue          # availability in a *client* is not dated by the server-side version columns
+            st.violation('client:%s' % what, {'banner': banner.decode(), 'peer': kind, 'cat': cat, 'name': name})
+        if prod is None and any('add' in acts for acts in doc.get('recommendations', {}).values()):
+            st.violation('client:unrecognised-software-gets-additions', {'banner': banner.decode(), 'peer': kind})
+
+
 HISTORY_KINDS = ['clean', 'gex2048', 'terrapin-hardened', 'asym-s2c-weak', 'exposed', 'smallrsa']
 
 
@@ -273,6 +292,7 @@ def run(tier, seed):
     hist = list(itertools.permutations(HISTORY_KINDS, 2)) + (list(itertools.permutations(HISTORY_KINDS, 3)) if tier != 'quick' else
                                                               [('exposed', 'terrapin-hardened', 'exposed'), ('smallrsa', 'clean', 'smallrsa'), ('gex2048', 'clean', 'gex2048')])
     par.pmap(work_history, hist, stats=st, chunk=2)
+    par.pmap(work_client, [(b, k) for b in bs[::4] for k in ('all', 'even', 'odd', 'clean', 'terrapin-hardened', 'unknowns')], stats=st, chunk=4)
     vcases = []
     for (prod, version, banner), kind in H.pick(tasks, seed, 12 if tier == 'quick' else 60):
         vcases.append({'label': '%s %s' % (banner, kind), 'opts': ['-n'] + (['-j'] if len(vcases) % 2 else []), 'make': (lambda kind=kind, banner=banner: make_server(kind, banner)[0])})
